@@ -2,11 +2,10 @@ package core
 
 import (
 	"bytes"
-	"sync/atomic"
-	"math/bits"
 	"encoding/binary"
 	"encoding/json"
 	"fmt"
+	"math/bits"
 	"os"
 	"os/exec"
 	"path/filepath"
@@ -16,6 +15,7 @@ import (
 	"strconv"
 	"strings"
 	"sync"
+	"sync/atomic"
 	"syscall"
 	"time"
 )
@@ -41,7 +41,7 @@ type Monitor interface {
 	ID() string
 	Info() Info
 	Plan(tier string) Plan
-	Run(ctx *Ctx)            // generate and execute the shard's cases
+	Run(ctx *Ctx)           // generate and execute the shard's cases
 	Exec(ctx *Ctx, c *Case) // execute one case (also used by replay)
 }
 
@@ -656,21 +656,21 @@ func runDriver(prop, tier string) int {
 	}
 	sort.Strings(edgeList)
 	coverage := map[string]any{
-		"evaluations":         merged.Evaluations,
-		"distinct_nontrivial": nDistinct,
-		"rule":                info.Rule,
-		"distinct_counting":   distinctHow,
-		"samples":             samples,
-		"counters":            merged.Counters,
-		"shards":              plan.Shards,
-		"parser_calls_seen_by_hook":      merged.ParserCalls,
-		"parser_transition_edges_seen":   len(merged.Edges),
-		"parser_transition_edges":        edgeList,
-		"max_steps_per_input_byte":       merged.MaxStepRatio,
-		"known_finding_hits":             merged.Known,
-		"violations_by_class":            merged.ByClass,
-		"inconclusive":                   merged.Inconclusive,
-		"repo_head":                      head,
+		"evaluations":                  merged.Evaluations,
+		"distinct_nontrivial":          nDistinct,
+		"rule":                         info.Rule,
+		"distinct_counting":            distinctHow,
+		"samples":                      samples,
+		"counters":                     merged.Counters,
+		"shards":                       plan.Shards,
+		"parser_calls_seen_by_hook":    merged.ParserCalls,
+		"parser_transition_edges_seen": len(merged.Edges),
+		"parser_transition_edges":      edgeList,
+		"max_steps_per_input_byte":     merged.MaxStepRatio,
+		"known_finding_hits":           merged.Known,
+		"violations_by_class":          merged.ByClass,
+		"inconclusive":                 merged.Inconclusive,
+		"repo_head":                    head,
 	}
 	if merged.MaxStepCase != nil {
 		coverage["max_steps_case"] = clip(merged.MaxStepCase.Brief(), 300)
